@@ -1,4 +1,5 @@
 import PepitVerif.Math.SparseSem
+import PepitModel.World
 
 /-!
 # Property C05: the numeric data handed to the solver denotes the symbolic expression
@@ -52,3 +53,104 @@ example : toSparse [(.ip 0 1, 3), (.ip 1 0, 1), (.ip 2 2, 5), (.f 4, 2), (.one, 
 end Pepit.C05
 
 #print axioms Pepit.C05.sparse_lower
+
+/-! ## what reaches the solver: the collection order of `_solve_with_wrapper` (`sendOrder`) -/
+
+namespace Pepit.C05
+open Pepit
+
+theorem count_cons_map_cons (c : Nat) (l : List Nat) : (l.map Sent.cons).count (Sent.cons c) = l.count c := by
+  induction l with
+  | nil => rfl
+  | cons a t ih =>
+    by_cases h : a = c
+    · subst h; simp [ih]
+    · have : Sent.cons a ≠ Sent.cons c := fun e => h (by injection e)
+      simp [List.count_cons, ih, h, this]
+
+theorem count_cons_map_psd (c : Nat) (l : List Nat) : (l.map Sent.psd).count (Sent.cons c) = 0 := by
+  induction l with
+  | nil => rfl
+  | cons a t ih => simp [List.count_cons, ih]
+
+theorem count_psd_map_psd (m : Nat) (l : List Nat) : (l.map Sent.psd).count (Sent.psd m) = l.count m := by
+  induction l with
+  | nil => rfl
+  | cons a t ih =>
+    by_cases h : a = m
+    · subst h; simp [ih]
+    · have : Sent.psd a ≠ Sent.psd m := fun e => h (by injection e)
+      simp [List.count_cons, ih, h, this]
+
+theorem count_psd_map_cons (m : Nat) (l : List Nat) : (l.map Sent.cons).count (Sent.psd m) = 0 := by
+  induction l with
+  | nil => rfl
+  | cons a t ih => simp [List.count_cons, ih]
+
+/-- dropping the functions that have neither own constraints nor own LMIs loses nothing -/
+theorem sum_filter_own (funs : List FunSent) (g : FunSent → Nat)
+    (hg : ∀ f, (f.cons.isEmpty && f.psd.isEmpty) = true → g f = 0) :
+    ((funs.filter (fun f => !f.cons.isEmpty || !f.psd.isEmpty)).map g).sum = (funs.map g).sum := by
+  induction funs with
+  | nil => rfl
+  | cons f t ih =>
+    by_cases h : (!f.cons.isEmpty || !f.psd.isEmpty) = true
+    · simp [List.filter_cons, h, ih]
+    · have h0 : g f = 0 := hg f (by
+        cases h1 : f.cons.isEmpty <;> cases h2 : f.psd.isEmpty <;> simp [h1, h2] at h ⊢)
+      simp [List.filter_cons, h, ih, h0]
+
+/-- **every scalar constraint reaches the solver exactly as often as it was declared**: the number of
+times `c` is sent is the number of times it occurs among the metric constraints, the problem's
+constraints, the class constraints of leaf functions, the own constraints of all functions and the
+constraints of the partitions — for every model -/
+theorem sent_count_cons (mcons pepCons pepPsd : List Nat) (funs : List FunSent) (partCons : List (List Nat)) (c : Nat) :
+    (sendOrder mcons pepCons pepPsd funs partCons).count (Sent.cons c) =
+      mcons.count c + pepCons.count c
+        + (((funs.filter (·.isLeaf)).map (fun f => f.classCons.count c)).sum)
+        + ((funs.map (fun f => f.cons.count c)).sum)
+        + ((partCons.map (fun l => l.count c)).sum) := by
+  unfold sendOrder
+  simp only [List.count_append, List.count_flatMap, count_cons_map_cons, count_cons_map_psd, Function.comp_def,
+    Nat.add_zero]
+  have hown : ∀ f : FunSent, (f.cons.isEmpty && f.psd.isEmpty) = true → f.cons.count c = 0 := by
+    intro f hf
+    have : f.cons = [] := by
+      cases hc : f.cons with
+      | nil => rfl
+      | cons a t => simp [hc] at hf
+    simp [this]
+  rw [sum_filter_own funs (fun f => f.cons.count c) hown]
+  try omega
+
+/-- **every LMI reaches the solver exactly as often as it was declared** -/
+theorem sent_count_psd (mcons pepCons pepPsd : List Nat) (funs : List FunSent) (partCons : List (List Nat)) (m : Nat) :
+    (sendOrder mcons pepCons pepPsd funs partCons).count (Sent.psd m) =
+      pepPsd.count m
+        + (((funs.filter (·.isLeaf)).map (fun f => f.classPsd.count m)).sum)
+        + ((funs.map (fun f => f.psd.count m)).sum) := by
+  unfold sendOrder
+  simp only [List.count_append, List.count_flatMap, count_psd_map_cons, count_psd_map_psd, Function.comp_def,
+    Nat.zero_add, Nat.add_zero]
+  have hown : ∀ f : FunSent, (f.cons.isEmpty && f.psd.isEmpty) = true → f.psd.count m = 0 := by
+    intro f hf
+    have : f.psd = [] := by
+      cases hc : f.psd with
+      | nil => rfl
+      | cons a t => simp [hc] at hf
+    simp [this]
+  rw [sum_filter_own funs (fun f => f.psd.count m) hown]
+  have : ((partCons.map (fun (_ : List Nat) => 0)).sum) = 0 := by simp
+  simp only [List.map_const', List.sum_replicate, smul_eq_mul, mul_zero] at this ⊢
+  try omega
+
+/-- non-vacuity: one metric constraint, two problem constraints, one problem LMI, a leaf function with two
+class constraints and one own constraint, a composite with an own LMI, one partition constraint -/
+example : sendOrder [10] [11, 12] [0]
+    [⟨[20, 21], [], [22], [], true⟩, ⟨[99], [], [], [1], false⟩] [[30]] =
+  [.cons 10, .cons 11, .cons 12, .psd 0, .cons 20, .cons 21, .cons 22, .psd 1, .cons 30] := by decide
+
+end Pepit.C05
+
+#print axioms Pepit.C05.sent_count_cons
+#print axioms Pepit.C05.sent_count_psd
